@@ -586,6 +586,16 @@ def convert_err(I, e, src, tgt):
         return I.call_mir(r[1], [e])
     if tgt.startswith("std::boxed::Box<dyn"):
         return BoxV(e)
+    if tgt == "anyhow::Error":
+        from .models_fs import AnyErr
+        if isinstance(deref(e), AnyErr):
+            return e
+        try:
+            from .models_fmt import display_chars
+            msg = display_chars(I, e)
+        except Unsupported:
+            msg = [ord(c) for c in "<error>"]
+        return AnyErr(msg, e)
     if r is not None and r[0] == "model":
         return r[1](I, [e], "<%s as std::convert::From<%s>>::from" % (tgt, src))
     raise Unsupported("error conversion %s -> %s" % (src, tgt))
